@@ -6,6 +6,8 @@ open SpsdkVerif.Regs
 structure St where
   rf : RegFile := []
   little : Bool := false
+  md : Meta := []          -- hidden bit-fields, shared enum names, alternative widths (config_model / alt streams)
+  saved : RegFile := []    -- `mark` / `restore`: the freshly loaded object
 
 def parseCsvNat (s : String) : List Nat :=
   if s == "-" then [] else (s.splitOn ",").filterMap (·.toNat?)
@@ -14,11 +16,65 @@ def resStr : PyRes Nat → String
   | .ok v => toString v
   | .error e => e.tag
 
-def dumpReg (r : Reg) : String :=
+/-- `alts = []` (every register of the older streams): `getAlt [] = get` (theorem `getAlt_nil`) -/
+def dumpReg (r : Reg) (alts : List Nat) : String :=
   let fs := r.fields.map (fun f => resStr (fieldGet r f))
-  s!"{resStr (r.get true)}/{resStr (r.get false)}[{",".intercalate fs}]"
+  s!"{resStr (r.getAlt alts true)}/{resStr (r.getAlt alts false)}[{",".intercalate fs}]"
 
-def dump (st : St) : String := " ".intercalate (st.rf.map dumpReg)
+def dump (st : St) : String :=
+  " ".intercalate ((List.range st.rf.length).map (fun i => dumpReg (st.rf.getD i {width := 0}) (st.md.reg i).alts))
+
+/-! configuration encoding (one token): entries joined by ';', entry = `t<i>=<c>` | `s<i>.<k>=<c>`,
+    `<c>` = `v<num>` | `f<j>:<x>,<j>:<x>…` (`f` alone = empty dict), `<x>` = `e<name id>` | `n<num>` | `r<num>`; `-` = empty -/
+def cfgValStr : CfgVal → String
+  | .enumName n => s!"e{n}"
+  | .num v => s!"n{v}"
+  | .rawNum v => s!"r{v}"
+
+def regCfgStr : RegCfg → String
+  | .value v => s!"v{v}"
+  | .fields l => "f" ++ ",".intercalate (l.map (fun (j, c) => s!"{j}:{cfgValStr c}"))
+
+def refStr : RegRef → String
+  | .top i => s!"t{i}"
+  | .sub i k => s!"s{i}.{k}"
+
+def cfgStr (c : Cfg) : String :=
+  if c.isEmpty then "-" else ";".intercalate (c.map (fun (r, x) => refStr r ++ "=" ++ regCfgStr x))
+
+def parseCfgVal (s : String) : Option CfgVal :=
+  match s.toList with
+  | 'e' :: rest => (String.ofList rest).toNat?.map CfgVal.enumName
+  | 'n' :: rest => (String.ofList rest).toNat?.map CfgVal.num
+  | 'r' :: rest => (String.ofList rest).toNat?.map CfgVal.rawNum
+  | _ => none
+
+def parseRegCfg (s : String) : Option RegCfg :=
+  match s.toList with
+  | 'v' :: rest => (String.ofList rest).toNat?.map RegCfg.value
+  | 'f' :: rest =>
+    if rest.isEmpty then some (.fields []) else
+    let items := (String.ofList rest).splitOn ","
+    let parsed := items.map (fun it => match it.splitOn ":" with
+      | [j, x] => (match j.toNat?, parseCfgVal x with | some j, some x => some (j, x) | _, _ => none)
+      | _ => none)
+    if parsed.all Option.isSome then some (.fields (parsed.filterMap id)) else none
+  | _ => none
+
+def parseRef (s : String) : Option RegRef :=
+  match s.toList with
+  | 't' :: rest => (String.ofList rest).toNat?.map RegRef.top
+  | 's' :: rest => (match (String.ofList rest).splitOn "." with
+    | [i, k] => (match i.toNat?, k.toNat? with | some i, some k => some (.sub i k) | _, _ => none)
+    | _ => none)
+  | _ => none
+
+def parseCfg (s : String) : Option Cfg :=
+  if s == "-" then some [] else
+  let parsed := (s.splitOn ";").map (fun e => match e.splitOn "=" with
+    | [r, c] => (match parseRef r, parseRegCfg c with | some r, some c => some (r, c) | _, _ => none)
+    | _ => none)
+  if parsed.all Option.isSome then some (parsed.filterMap id) else none
 
 /-- load-time initialisation of one register as `Register.create_from_spec` does it -/
 def initReg (r : Reg) : Reg :=
@@ -33,10 +89,17 @@ def initReg (r : Reg) : Reg :=
       (cur, done ++ [{ f with reset := rv }])) (r0, [])
   { r1 with fields := fs }
 
-def applyOp (st : St) (op : Op) : St × String :=
-  match step st.rf op with
+def applyRes (st : St) (res : PyRes RegFile) : St × String :=
+  match res with
   | .ok rf' => ({ st with rf := rf' }, "ok " ++ dump { st with rf := rf' })
   | .error e => (st, e.tag ++ " " ++ dump st)
+
+def applyOp (st : St) (op : Op) : St × String := applyRes st (step st.rf op)
+
+def updLast {α} (l : List α) (f : α → α) : List α :=
+  match l.getLast? with
+  | some x => l.dropLast ++ [f x]
+  | none => l
 
 def stepLine (st : St) : List String → St × String
   | ["new", l] => ({ rf := [], little := l == "1" }, "ok")
@@ -44,16 +107,43 @@ def stepLine (st : St) : List String → St × String
     match parseNat w, parseBool rev, parseNat rst, parseNat subW, parseNat nsubs, parseBool revSubs with
     | some w, some rev, some rst, some subW, some nsubs, some revSubs =>
       ({ st with rf := st.rf ++ [{ width := w, reverse := rev, resetRaw := rst, subW := subW,
-                                    subs := List.replicate nsubs 0, revSubs := revSubs }] }, "ok")
+                                    subs := List.replicate nsubs 0, revSubs := revSubs }],
+                 md := st.md ++ [{}] }, "ok")
     | _, _, _, _, _, _ => (st, "bad-op")
   | ["field", off, w, sh, rst, en] =>
     match parseNat off, parseNat w, parseNat sh, parseNat rst with
     | some off, some w, some sh, some rst =>
       (match st.rf.getLast? with
-       | some r => ({ st with rf := st.rf.dropLast ++ [{ r with fields := r.fields ++
-            [{ offset := off, width := w, shift := sh, reset := rst, enums := parseCsvNat en }] }] }, "ok")
+       | some r =>
+         let r' : Reg := { r with fields := r.fields ++
+            [{ offset := off, width := w, shift := sh, reset := rst, enums := parseCsvNat en }] }
+         let md' : Meta := updLast st.md (fun (rm : RegMeta) => { rm with fields := rm.fields ++ [({} : FieldMeta)] })
+         ({ st with rf := st.rf.dropLast ++ [r'], md := md' }, "ok")
        | none => (st, "bad-op"))
     | _, _, _, _ => (st, "bad-op")
+  -- C11 extension: meta data of the last register / last bit-field, configuration path, alternative widths
+  | ["alts", a] => ({ st with md := updLast st.md (fun rm => { rm with alts := parseCsvNat a }) }, "ok")
+  | ["fmeta", h, names] => match parseBool h with
+    | some h => ({ st with md := updLast st.md (fun rm =>
+        { rm with fields := updLast rm.fields (fun _ => { hidden := h, names := parseCsvNat names }) }) }, "ok")
+    | none => (st, "bad-op")
+  | ["flip_reverse", i] => match parseNat i with
+    | some i => (match st.rf[i]? with
+      | some r => ({ st with rf := st.rf.set i { r with reverse := !r.reverse } }, "ok")
+      | none => (st, "bad-op"))
+    | none => (st, "bad-op")
+  | ["set_alt", i, v, raw] => match parseNat i, parseNat v, parseBool raw with
+    | some i, some v, some raw => applyRes st (updAt st.rf i (fun r => r.setAlt (st.md.reg i).alts v raw))
+    | _, _, _ => (st, "bad-op")
+  | ["set_sub", i, k, v] => match parseNat i, parseNat k, parseNat v with
+    | some i, some k, some v => applyRes st (loadEntry st.md st.rf (.sub i k, .value v))
+    | _, _, _ => (st, "bad-op")
+  | ["mark"] => ({ st with saved := st.rf }, "ok")
+  | ["restore"] => let st' := { st with rf := st.saved }; (st', "ok " ++ dump st')
+  | ["get_config"] => (st, resLine cfgStr (getConfig st.md st.rf))
+  | ["load_config", c] => match parseCfg c with
+    | some c => applyRes st (loadConfig st.md st.rf c)
+    | none => (st, "bad-op")
   | ["init"] => let st' := { st with rf := st.rf.map initReg }; (st', "ok " ++ dump st')
   | ["set_reg", i, v, raw] => match parseNat i, parseNat v, parseBool raw with
     | some i, some v, some raw => applyOp st (.setReg i v raw) | _, _, _ => (st, "bad-op")
